@@ -474,7 +474,7 @@ __CPROVER_ensures(SPEC_TEXTUAL ==> self->_has_string_related_type) /*@ C04 "an a
 __CPROVER_ensures(OLD(self->_has_string_related_type) ==> self->_has_string_related_type) /*@ C04 "a later argument never clears the mark set by an earlier one" */
 __CPROVER_ensures(SPEC_OWNED ==> g_copies == 1) /*@ C04 "a decoded argument that does not live in the queue record (a decoded std::string or container / user object is a temporary) is copied into the store: the formatter never reads a dead object" */
 ''')],
-        harness='  DFAS* s; DFAS_push_back(s);',
+        harness='  DFAS* s; DFAS_push_back(s);', **(dict(replay=dict(template='dfas.cpp', op='char')) if tname == 'char' else {}),
         dropped=['the fmt argument objects (basic_format_arg, DynamicArgList): which of the two emplace forms is used is kept', 'template instantiated at the named type; if-constexpr arms selected by g++ against the real header, the compile-time declarations of the body (char_type, mapped_type, stored_type) included'],
         trusted=['fmt: mapped_type_constant classifies the type as g++ evaluates it; DynamicArgList::push copies its argument'], min_obligations=4)
 
